@@ -163,15 +163,26 @@ static Token *append(Token *tok1, Token *tok2) {
   return head.next;
 }
 
+// Returns true if `tok` begins the directive `name`. The name must be
+// on the same line as the `#`; a `#` alone is a null directive.
+static bool is_directive(Token *tok, char *name) {
+  return is_hash(tok) && !tok->next->at_bol && equal(tok->next, name);
+}
+
 static Token *skip_cond_incl2(Token *tok) {
   while (tok->kind != TK_EOF) {
-    if (is_hash(tok) &&
-        (equal(tok->next, "if") || equal(tok->next, "ifdef") ||
-         equal(tok->next, "ifndef"))) {
+    // The directive name is on the same line as the `#`.
+    if (!is_hash(tok) || tok->next->at_bol) {
+      tok = tok->next;
+      continue;
+    }
+
+    if (equal(tok->next, "if") || equal(tok->next, "ifdef") ||
+        equal(tok->next, "ifndef")) {
       tok = skip_cond_incl2(tok->next->next);
       continue;
     }
-    if (is_hash(tok) && equal(tok->next, "endif"))
+    if (equal(tok->next, "endif"))
       return tok->next->next;
     tok = tok->next;
   }
@@ -182,16 +193,20 @@ static Token *skip_cond_incl2(Token *tok) {
 // Nested `#if` and `#endif` are skipped.
 static Token *skip_cond_incl(Token *tok) {
   while (tok->kind != TK_EOF) {
-    if (is_hash(tok) &&
-        (equal(tok->next, "if") || equal(tok->next, "ifdef") ||
-         equal(tok->next, "ifndef"))) {
+    // The directive name is on the same line as the `#`.
+    if (!is_hash(tok) || tok->next->at_bol) {
+      tok = tok->next;
+      continue;
+    }
+
+    if (equal(tok->next, "if") || equal(tok->next, "ifdef") ||
+        equal(tok->next, "ifndef")) {
       tok = skip_cond_incl2(tok->next->next);
       continue;
     }
 
-    if (is_hash(tok) &&
-        (equal(tok->next, "elif") || equal(tok->next, "else") ||
-         equal(tok->next, "endif")))
+    if (equal(tok->next, "elif") || equal(tok->next, "else") ||
+        equal(tok->next, "endif"))
       break;
     tok = tok->next;
   }
@@ -878,7 +893,7 @@ static char *read_include_filename(Token **rest, Token *tok, bool *is_dquote) {
 //   #endif
 static char *detect_include_guard(Token *tok) {
   // Detect the first two lines.
-  if (!is_hash(tok) || !equal(tok->next, "ifndef"))
+  if (!is_directive(tok, "ifndef"))
     return NULL;
   tok = tok->next->next;
 
@@ -888,12 +903,12 @@ static char *detect_include_guard(Token *tok) {
   char *macro = strndup(tok->loc, tok->len);
   tok = tok->next;
 
-  if (!is_hash(tok) || !equal(tok->next, "define") || !equal(tok->next->next, macro))
+  if (!is_directive(tok, "define") || !equal(tok->next->next, macro))
     return NULL;
 
   // Read until the end of the file.
   while (tok->kind != TK_EOF) {
-    if (!is_hash(tok)) {
+    if (!is_hash(tok) || tok->next->at_bol) {
       tok = tok->next;
       continue;
     }
@@ -987,6 +1002,10 @@ static Token *preprocess2(Token *tok) {
 
     Token *start = tok;
     tok = tok->next;
+
+    // `#`-only line is legal. It's called a null directive.
+    if (tok->at_bol)
+      continue;
 
     if (equal(tok, "include")) {
       bool is_dquote;
@@ -1119,10 +1138,6 @@ static Token *preprocess2(Token *tok) {
 
     if (equal(tok, "error"))
       error_tok(tok, "error");
-
-    // `#`-only line is legal. It's called a null directive.
-    if (tok->at_bol)
-      continue;
 
     error_tok(tok, "invalid preprocessor directive");
   }
